@@ -483,7 +483,23 @@ def A4_params(rep, flow: Flow, only=None, modules=None):
                     rep.note(f"A4 exemption {f.fq}({p}): {EXEMPT[(f.fq, p)]}")
                     continue
                 if m.cond in OPT_IN:
-                    rep.note(f"A4: {f.fq} mutates `{p}` only when the caller passes {m.cond}=True (documented opt-in)")
+                    # an opt-in is the caller's choice only if the caller has to ask for it: the flag defaults to False
+                    a = f.node.args
+                    allp = a.posonlyargs + a.args
+                    dflt = None
+                    for arg, d in zip(allp[len(allp) - len(a.defaults):], a.defaults):
+                        if arg.arg == m.cond:
+                            dflt = d
+                    for arg, d in zip(a.kwonlyargs, a.kw_defaults):
+                        if arg.arg == m.cond:
+                            dflt = d
+                    if isinstance(dflt, ast.Constant) and dflt.value is False:
+                        rep.note(f"A4: {f.fq} mutates `{p}` only when the caller passes {m.cond}=True (documented opt-in, default False)")
+                        continue
+                    if m.cond in [x.arg for x in allp + a.kwonlyargs]:
+                        rep.finding("A4", f"{f.fq}:{p}:opt-out", f"{pyfacts.where(f, m.node)}: parameter `{p}` of {f.qualname} is mutated unless the caller passes {m.cond}=False: the flag defaults to `{ast.unparse(dflt) if dflt is not None else 'no default'}`, a call with default arguments modifies the caller's object [{pyfacts.norm_stmt(m.node)}]")
+                        continue
+                    rep.note(f"A4: {f.fq} mutates `{p}` only under the flag {m.cond} of a callee (documented opt-in)")
                     continue
                 real.append(m)
             if real:
